@@ -535,3 +535,55 @@ func hasBound(t *Term) bool {
 	}
 	return false
 }
+
+// census (thorough tier): every discharged obligation is re-run on each solver separately, without racing, to see how
+// many back ends prove it; an obligation only one back end proves, or that needs seconds, is a candidate for instability.
+type censusRow struct {
+	Name    string
+	Proved  []string
+	SlowMS  int64
+	Results map[string]string
+}
+
+func censusAll(obls []*Obligation, timeout time.Duration, workers int, solvers []string) []censusRow {
+	type job struct {
+		o *Obligation
+		q string
+	}
+	var mu sync.Mutex
+	var rows []censusRow
+	var wg sync.WaitGroup
+	ch := make(chan job)
+	for i := 0; i < workers; i++ {
+		wg.Add(1)
+		go func() {
+			defer wg.Done()
+			for j := range ch {
+				row := censusRow{Name: j.o.Name, Results: map[string]string{}}
+				ground := !strings.Contains(j.q, "forall")
+				for _, s := range solvers {
+					r, _, ms := runSolver(ctxBG(), s, j.q, timeout, ground)
+					row.Results[s] = r
+					if r == "unsat" {
+						row.Proved = append(row.Proved, s)
+						if row.SlowMS == 0 || ms < row.SlowMS {
+							row.SlowMS = ms // fastest proof
+						}
+					}
+				}
+				mu.Lock()
+				rows = append(rows, row)
+				mu.Unlock()
+			}
+		}()
+	}
+	for _, o := range obls {
+		if o.Result != "unsat" {
+			continue
+		}
+		ch <- job{o, buildQuery(o, nil)}
+	}
+	close(ch)
+	wg.Wait()
+	return rows
+}
